@@ -226,6 +226,9 @@ def role_of(key: str, reach_lists: set, reach_mans: set) -> str:
 
 
 # ------------------------------------------------------------------------------------------ base tables
+ADOPTED_SUBDIR_KEYS = ["data/p1/x.parquet", "data/p2/x.parquet"]
+
+
 def build_base(base: str, spec: Dict[str, Any]) -> Tuple[str, float]:
     """A table with spec['snaps'] retained snapshots and every kind of protected / unprotected file; all aged old."""
     import logging
@@ -264,6 +267,18 @@ def build_base(base: str, spec: Dict[str, Any]) -> Tuple[str, float]:
         tx = t.new_transaction().begin()
         tx.append_data([{"x": 1000}])
         # the transaction object is dropped: its marker and data file stay (a live writer in another process)
+    if spec.get("adopt_subdirs"):
+        # a live transaction that has ADOPTED pre-built files (Transaction.append_files: any canonical path below data/, so also
+        # files in sub-directories that share their basename) and has not committed yet: nothing but its markers protects them
+        import glob
+        from datashard.data_structures import DataFile, FileFormat
+        src = sorted(glob.glob(os.path.join(root, "data", "*.parquet")))[0]
+        for key in ADOPTED_SUBDIR_KEYS:
+            h5._plant(root, key, open(src, "rb").read())
+        tx2 = t.new_transaction().begin()
+        tx2.append_files([DataFile(file_path=key, file_format=FileFormat.PARQUET, partition_values={}, record_count=1,
+                                   file_size_in_bytes=os.path.getsize(src)) for key in ADOPTED_SUBDIR_KEYS])
+        # (the transaction object is dropped like the one above)
     if spec.get("pending", True):
         # a commit in progress: manifest written and registered, metadata not yet flipped
         h5._plant(root, "metadata/manifests/manifest_pending_1.avro", b"pending manifest bytes")
@@ -458,6 +473,9 @@ def run_table(spec: Dict[str, Any]) -> Dict[str, Any]:
         reach_lists, reach_mans = set(list_keys), set(man_keys)
         targets = [("list", i, k) for i, k in enumerate(list_keys)] + [("manifest", i, k) for i, k in enumerate(man_keys)]
         live = reader0.live_protected(now, TIMEOUT_MS)
+        if spec.get("adopt_subdirs"):
+            # what the live adopting transaction REGISTERED (ground truth, not what the markers on disk happen to say)
+            live |= set(ADOPTED_SUBDIR_KEYS)
         markers0 = reader0.markers()
         snaps = [sm.get("manifest_list") or "" for sm in snaps_meta]
         base_store = gcsim.store_term(root)
@@ -987,16 +1005,16 @@ def make_specs(ctx) -> List[Dict[str, Any]]:
     # multi_append: the newest commit adds several files (a manifest with several records); multiblock: lists and manifests
     # laid out with one Avro block per record (what a writer produces once a file outgrows a block)
     variants = [
-        {"snaps": 1, "rewrite": False, "expire": False, "multi_append": 3},
+        {"snaps": 1, "rewrite": False, "expire": False, "multi_append": 3, "adopt_subdirs": True},
         {"snaps": 2, "rewrite": True, "expire": False, "dead_writer": "append"},
-        {"snaps": 3, "rewrite": False, "expire": True, "legacy_marker": True, "multiblock": True, "dead_writer": "delete_snapshot"},
+        {"snaps": 3, "rewrite": False, "expire": True, "legacy_marker": True, "multiblock": True, "dead_writer": "delete_snapshot", "adopt_subdirs": True},
         {"snaps": 4, "rewrite": True, "expire": True, "multi_append": 2, "multiblock": True, "dead_writer": "expire"},
         # every reachable list / manifest in the legacy JSON format (JSON fallback of the readers)
         {"snaps": 2, "rewrite": True, "expire": False, "multi_append": 2, "legacy_json": True},
         # the collection runs on a third-party backend: a StorageBackend subclass implementing only the abstract methods, so
         # every helper with a default implementation in the base class is the default, composed from the primitives (faults_only:
         # byte / stream / structured damage of documents is a matter of the decoders, not of the backend: not repeated here)
-        {"snaps": 2, "rewrite": False, "expire": True, "legacy_marker": True, "backend": "thirdparty", "faults_only": True},
+        {"snaps": 2, "rewrite": False, "expire": True, "legacy_marker": True, "backend": "thirdparty", "faults_only": True, "adopt_subdirs": True},
     ]
     graces = [0] if quick else [0, 3600000]
     for vi, v in enumerate(variants):
